@@ -93,8 +93,11 @@ func applyKnown(con *Contracts, known []*Known) {
 
 // ---- lock file ------------------------------------------------------------------------------
 
-func readLock(file string) map[string]bool {
-	m := map[string]bool{}
+// readLock reads obligations.lock: lines "<tags>\t<class>\t<obligation name>" where class is
+// q (claimed in quick and thorough), t (claimed in thorough only: slow), u (generated on the
+// unchanged tree but not discharged there: not claimed).
+func readLock(file string) map[string]string {
+	m := map[string]string{}
 	f, err := os.Open(file)
 	if err != nil {
 		return m
@@ -107,12 +110,26 @@ func readLock(file string) map[string]bool {
 		if l == "" || strings.HasPrefix(l, "#") {
 			continue
 		}
-		m[l] = true
+		p := strings.SplitN(l, "\t", 3)
+		if len(p) == 3 {
+			m[p[0]+"\t"+p[2]] = p[1]
+		}
 	}
 	return m
 }
 
 func lockKey(tags, name string) string { return tags + "\t" + name }
+
+// lockHasFunc reports whether the lock knows any obligation of the function (for these tags).
+func lockHasFunc(lock map[string]string, tags, fn string) bool {
+	pre := tags + "\t" + fn + "#"
+	for k := range lock {
+		if strings.HasPrefix(k, pre) {
+			return true
+		}
+	}
+	return false
+}
 
 // ---- evidence -------------------------------------------------------------------------------
 
@@ -176,6 +193,7 @@ func (r *Report) Finish() int {
 			undecided = append(undecided, v)
 		}
 	}
+	_ = refuted
 	var unsupported []string
 	for _, fr := range r.Results {
 		if fr.Err != "" {
@@ -187,7 +205,8 @@ func (r *Report) Finish() int {
 		fmt.Printf("  STALE-CONTRACT %s\n", s)
 	}
 
-	// triage
+	// triage: only claimed obligations (obligations.lock classes q/t) and brand-new failing
+	// obligations of functions the lock knows can raise an alarm
 	violations := 0
 	var vioLines []string
 	report := func(v *Verdict, reason string, noInput bool) {
@@ -199,28 +218,63 @@ func (r *Report) Finish() int {
 		}
 		vioLines = append(vioLines, line)
 	}
-	for _, v := range refuted {
-		fmt.Printf("  REFUTED   %-9s %5.2fs %s\n", v.Backend, v.TimeS, v.Obl.Name)
-		rp, ok := r.tryReplay(v)
-		if ok {
-			violations++
-			vioLines = append(vioLines, fmt.Sprintf("VIOLATION property=%s replay=%s obligation=%s", r.Prop, rp, strings.ReplaceAll(v.Obl.Name, " ", "_")))
-		} else {
-			report(v, "refuted: solver returned sat with a model; the model could not be replayed mechanically on the real code", true)
+	claimedN, claimedD := 0, 0
+	var notClaimed []string
+	deferred := 0
+	for _, v := range r.Verdicts {
+		if v.Obl.Cover {
+			continue
+		}
+		cls := lock[lockKey(r.Tags, v.Obl.Name)]
+		claimed := cls == "q" || (cls == "t" && r.Tier == "thorough")
+		switch v.Status {
+		case "discharged":
+			if claimed || cls == "t" {
+				claimedN++
+				claimedD++
+			}
+		case "refuted":
+			switch {
+			case cls == "q" || cls == "t":
+				claimedN++
+				fmt.Printf("  REFUTED   %-9s %5.2fs %s\n", v.Backend, v.TimeS, v.Obl.Name)
+				if rp, ok := r.tryReplay(v); ok {
+					violations++
+					vioLines = append(vioLines, fmt.Sprintf("VIOLATION property=%s replay=%s obligation=%s", r.Prop, rp, strings.ReplaceAll(v.Obl.Name, " ", "_")))
+				} else {
+					report(v, "refuted: this obligation is discharged on the unchanged tree (obligations.lock); now a solver returns sat with a model. The model is a pre-state of the function; it could not be replayed mechanically on the real code", true)
+				}
+			case cls == "" && lockHasFunc(lock, r.Tags, v.Func) && !r.renamedUnclaimed(lock, v):
+				fmt.Printf("  REFUTED   %-9s %5.2fs %s (new obligation, not in obligations.lock)\n", v.Backend, v.TimeS, v.Obl.Name)
+				if rp, ok := r.tryReplay(v); ok {
+					violations++
+					vioLines = append(vioLines, fmt.Sprintf("VIOLATION property=%s replay=%s obligation=%s", r.Prop, rp, strings.ReplaceAll(v.Obl.Name, " ", "_")))
+				} else {
+					report(v, "refuted: new obligation (the code of a function under contract changed) that a solver refutes with a model", true)
+				}
+			default:
+				fmt.Printf("  unclaimed %-9s %5.2fs %s (refuted in the abstraction; not discharged on the unchanged tree either)\n", v.Backend, v.TimeS, v.Obl.Name)
+				notClaimed = append(notClaimed, v.Obl.Name)
+			}
+		default: // undecided
+			switch {
+			case claimed:
+				claimedN++
+				fmt.Printf("  REGRESSED %5.2fs %s (discharged on the unchanged tree per obligations.lock)\n", v.TimeS, v.Obl.Name)
+				report(v, "undecided: this obligation is recorded as discharged in obligations.lock and no solver discharges it now (after a retry with thorough limits)", true)
+			case cls == "t":
+				deferred++
+			default:
+				if r.Verbose {
+					fmt.Printf("  unclaimed %5.2fs %s (undecided)\n", v.TimeS, v.Obl.Name)
+				}
+				notClaimed = append(notClaimed, v.Obl.Name)
+			}
 		}
 	}
-	var notClaimed []string
-	for _, v := range undecided {
-		if lock[lockKey(r.Tags, v.Obl.Name)] {
-			fmt.Printf("  REGRESSED %5.2fs %s (was discharged in obligations.lock)\n", v.TimeS, v.Obl.Name)
-			report(v, "undecided: this obligation is recorded as discharged in obligations.lock and no solver discharges it now", true)
-		} else {
-			fmt.Printf("  UNDECIDED %5.2fs %s\n", v.TimeS, v.Obl.Name)
-			if r.Verbose {
-				fmt.Println(indent(truncate(v.Output, 800)))
-			}
-			notClaimed = append(notClaimed, v.Obl.Name)
-		}
+	if len(lock) == 0 {
+		// bootstrap (no lock yet): every discharged obligation counts, nothing alarms
+		claimedN, claimedD = nd, nd
 	}
 	// obligations in the lock that no longer exist (renamed away / contract lost)
 	missing := 0
@@ -229,8 +283,8 @@ func (r *Report) Finish() int {
 		for _, v := range r.Verdicts {
 			have[lockKey(r.Tags, v.Obl.Name)] = true
 		}
-		for k := range lock {
-			if !strings.HasPrefix(k, r.Tags+"\t") {
+		for k, cls := range lock {
+			if !strings.HasPrefix(k, r.Tags+"\t") || cls == "u" {
 				continue
 			}
 			name := strings.TrimPrefix(k, r.Tags+"\t")
@@ -269,8 +323,8 @@ func (r *Report) Finish() int {
 	for _, l := range vioLines {
 		fmt.Println(l)
 	}
-	fmt.Printf("property=%s tier=%s functions=%d obligations=%d discharged=%d refuted=%d undecided=%d covers=%d gen=%.1fs wall=%.1fs\n",
-		r.Prop, r.Tier, len(r.Results), len(r.Verdicts)-ncov, nd, nr, nu, ncov, r.GenS, time.Since(r.T0).Seconds())
+	fmt.Printf("property=%s tier=%s functions=%d generated=%d discharged=%d refuted=%d undecided=%d | claimed=%d claimed-discharged=%d deferred-to-thorough=%d unclaimed=%d covers=%d gen=%.1fs wall=%.1fs\n",
+		r.Prop, r.Tier, len(r.Results), len(r.Verdicts)-ncov, nd, nr, nu, claimedN, claimedD, deferred, len(notClaimed), ncov, r.GenS, time.Since(r.T0).Seconds())
 
 	if r.UpdateLock && r.LockFile != "" {
 		r.updateLock(lock)
@@ -304,9 +358,6 @@ func (r *Report) Finish() int {
 		for _, v := range undecided {
 			uns = append(uns, v.Obl.Name)
 		}
-		for _, v := range refuted {
-			samples = append(samples, map[string]any{"obligation": v.Obl.Name, "verdict": "sat", "backend": v.Backend})
-		}
 		var kn []string
 		for _, k := range known {
 			if k.Property == r.Prop {
@@ -316,7 +367,9 @@ func (r *Report) Finish() int {
 		ev := Evidence{PropertyID: r.Prop, Tier: r.Tier, Seed: r.Seed, Level: r.Level, WallS: round2(time.Since(r.T0).Seconds()), Violations: violations,
 			Assumptions: append(al, "machine integers are bit-vectors of their declared width (never mathematical integers)", "callee contracts are used at call sites; callbacks havoc all modelled memory"),
 			Coverage: map[string]any{
-				"obligations": len(r.Verdicts) - ncov, "discharged": nd, "refuted": nr, "undecided_count": nu,
+				"obligations": claimedN, "discharged": claimedD,
+				"generated_obligations": len(r.Verdicts) - ncov, "generated_discharged": nd, "generated_refuted": nr, "generated_undecided": nu,
+				"unclaimed": notClaimed, "deferred_to_thorough": deferred,
 				"checker_cmd":              r.CheckerCmd,
 				"trusted_base":             tb,
 				"functions_under_contract": fl,
@@ -345,6 +398,27 @@ func (r *Report) Finish() int {
 	return 0
 }
 
+// renamedUnclaimed: a new refuted obligation whose function has an unclaimed ("u") obligation of
+// the same kind that this run did not generate is most likely that obligation under a new name
+// (its name contains the source text of the line); it stays unclaimed.
+func (r *Report) renamedUnclaimed(lock map[string]string, v *Verdict) bool {
+	kind := v.Obl.Name
+	if i := strings.Index(kind, "["); i >= 0 {
+		kind = kind[:i]
+	}
+	have := map[string]bool{}
+	for _, w := range r.Verdicts {
+		have[lockKey(r.Tags, w.Obl.Name)] = true
+	}
+	pre := r.Tags + "\t" + kind + "["
+	for k, cls := range lock {
+		if cls == "u" && strings.HasPrefix(k, pre) && !have[k] {
+			return true
+		}
+	}
+	return false
+}
+
 func round2(x float64) float64 { return float64(int(x*100+0.5)) / 100 }
 
 func (r *Report) servesProp(oblName string) bool {
@@ -356,14 +430,14 @@ func (r *Report) servesProp(oblName string) bool {
 	return fs != nil && contains(fs.Serves, r.Prop)
 }
 
-func (r *Report) updateLock(old map[string]bool) {
+func (r *Report) updateLock(old map[string]string) {
 	// keep entries of other tag sets and of functions not verified in this run
-	keep := map[string]bool{}
+	keep := map[string]string{}
 	ran := map[string]bool{}
 	for _, fr := range r.Results {
 		ran[fr.Name] = true
 	}
-	for k := range old {
+	for k, cls := range old {
 		parts := strings.SplitN(k, "\t", 2)
 		if len(parts) != 2 {
 			continue
@@ -373,20 +447,29 @@ func (r *Report) updateLock(old map[string]bool) {
 			fn = fn[:i]
 		}
 		if parts[0] != r.Tags || !ran[fn] {
-			keep[k] = true
+			keep[k] = cls
 		}
 	}
 	for _, v := range r.Verdicts {
-		if v.Status == "discharged" && !v.Obl.Cover && v.TimeS <= float64(r.TimeoutMs)/1000*0.5 {
-			keep[lockKey(r.Tags, v.Obl.Name)] = true
+		if v.Obl.Cover {
+			continue
 		}
+		cls := "u"
+		if v.Status == "discharged" {
+			cls = "t"
+			if v.TimeS <= 2.0 {
+				cls = "q"
+			}
+		}
+		keep[lockKey(r.Tags, v.Obl.Name)] = cls
 	}
 	var ks []string
-	for k := range keep {
-		ks = append(ks, k)
+	for k, cls := range keep {
+		p := strings.SplitN(k, "\t", 2)
+		ks = append(ks, p[0]+"\t"+cls+"\t"+p[1])
 	}
 	sort.Strings(ks)
-	os.WriteFile(r.LockFile, []byte("# obligations discharged on the unchanged tree: <tags>\\t<obligation name>\n"+strings.Join(ks, "\n")+"\n"), 0o644)
+	os.WriteFile(r.LockFile, []byte("# obligations generated on the unchanged tree: <tags>\\t<class q|t|u>\\t<obligation name>\n"+strings.Join(ks, "\n")+"\n"), 0o644)
 }
 
 func (r *Report) writeReplay(v *Verdict, reason string) string {
